@@ -62,7 +62,10 @@ pub fn spell_kv(rec: &Value, rng: &mut Rng) -> String {
 
 fn spell_event(e: &Value, rng: &mut Rng) -> String {
     let n = geti(e, "n") as usize;
-    let f = gets(e, "f");
+    // a doubled backslash in an event file name is one separator
+    let f0 = gets(e, "f");
+    let f1 = if f0.contains('\\') && rng.chance(1, 2) { f0.replace('\\', "\\\\") } else { f0.to_string() };
+    let f = f1.as_str();
     let quoted = if rng.chance(2, 3) { format!("\"{f}\"") } else { f.to_string() };
     let num = |c: &str, v: i64, rng: &mut Rng| match c {
         "num" => {
